@@ -179,15 +179,16 @@ PROPS["C08"] = {
 }
 
 PROPS["C09"] = {
-    "rule": "three pairings over every query type (NULL, PRIVATE, TXT, SRV, MX, CNAME, A) x downstream codec (T,S,U,V,R): (i) real iodined answers a scripted protocol client's fragment-size probes (about 140 lengths per run out of 0..2047: format boundaries, a contiguous window, a random sample, "
+    "rule": "four pairings over every query type (NULL, PRIVATE, TXT, SRV, MX, CNAME, A) x downstream codec (T,S,U,V,R): (i) real iodined answers a scripted protocol client's fragment-size probes (about 140 lengths per run out of 0..2047: format boundaries, a contiguous window, a random sample, "
             "in random order, with minimum- and maximum-length query names) and the reference decoder must obtain the documented probe pattern exactly, or a proper prefix / nothing - never other bytes - with the exactly-delivered lengths downward-closed per cell; "
             "(ii) the real client receives the same tunnel payloads re-encoded in transit by the reference encoder (different record layout, same protocol) and (iii) the real server's own encoding, with fragment sizes up to what one answer can carry and with autoprobe: "
-            "every packet must then be delivered intact, once, in order (a wrongly extracted fragment of any length breaks a packet). non-trivial = (i) >=5 exact deliveries, (ii)/(iii) handshake completed and >=5 packets accepted per side; distinct = distinct run fingerprints",
+            "every packet must then be delivered intact, once, in order (a wrongly extracted fragment of any length breaks a packet); (iv) an on-path sender built on the reference encoder takes over the idle downstream channel of a real session and feeds the real client packets cut into fragments of arbitrary lengths (1 byte .. what the format carries) in arbitrary order, waiting for the client's acks: the client must write exactly those packets; in autoprobe runs the fragment size the client requests must be the largest probed size whose reply reached it exactly according to the reference decoder (a client that extracts other bytes misjudges its own probes). non-trivial = (i) >=5 exact deliveries, (ii)/(iii) handshake completed and >=5 packets accepted per side; distinct = distinct run fingerprints",
     "jobs": [
         {"scen": "probe", "sets": {}, "quick": 3000, "thorough": 200000},
         {"scen": "tunnel", "sets": {"mode": "clean9"}, "quick": 1500, "thorough": 80000},
+        {"scen": "tunnel", "sets": {"mode": "inject9"}, "quick": 1200, "thorough": 80000},
     ],
-    "expect_probes": ["c09.probes", "c09.exact", "c09.prefix", "c09.cells_with_threshold", "c02.cli.accept", "c02.srv.accept"],
+    "expect_probes": ["c09.probes", "c09.exact", "c09.prefix", "c09.cells_with_threshold", "c02.cli.accept", "c02.srv.accept", "c09.autoprobe_judged", "c09.inj_fragments", "c09.inj_packets_acked", "c09.inj_tiny", "c09.inj_full"],
 }
 
 PROPS["C18"] = {
